@@ -1177,7 +1177,7 @@ class Context(object):
                 pass
         return command
 
-    def let(self, dest, source):
+    def let(self, dest, source, local=True):
         """
         Create a \\let
 
@@ -1185,17 +1185,29 @@ class Context(object):
         dest -- the command sequence to create
         source -- the token to set the command sequence equivalent to
 
+        Keyword Arguments:
+        local -- indicates whether this alias is local or global
+
         Examples::
             c.let('bgroup', BeginGroup('{'))
 
         """
+        if local:
+            target = self.top
+        else:
+            # A global alias replaces the local ones in the open groups
+            target = self.contexts[0]
+            for context in self.contexts[1:]:
+                dict.pop(context, dest.nodeName, None)
+                context.lets.pop(dest.nodeName, None)
+
         # Use nodeName instead of macroName to work with Macros as well as
         # EscapeSequence, e.g. when we do
         # \expandafter\let\csname foo\endcsname=1
         if source.catcode == Token.CC_ESCAPE:
-            self.top[dest.nodeName] = self[source.nodeName]
+            target[dest.nodeName] = self[source.nodeName]
         else:
-            self.top.lets[dest.nodeName] = source
+            target.lets[dest.nodeName] = source
 
     def chardef(self, name, num):
         """
